@@ -6,7 +6,7 @@ import vlib
 
 LEVEL = "model_checking"
 
-TH = ["ThTransport", "ThPolygon", "ThCoder", "ThZigZag", "ThInterleave", "ThUvarint", "ThCell", "ThCellUnion", "ThLoop", "Emit"]
+TH = ["ThTransport", "ThReceiver", "ThPolygon", "ThCoder", "ThZigZag", "ThInterleave", "ThUvarint", "ThCell", "ThCellUnion", "ThLoop", "Emit"]
 KINDS = ["centre-ring", "centre-ring-extreme", "corner-ring", "holes", "mixed", "faces", "multi", "many-loops", "special-polygon",
          "loop", "polyline", "point", "cap", "rect", "cellid", "cellunion", "long-stream"]
 
@@ -56,7 +56,8 @@ def run(ctx):
                 "bytes and the real decoder must return the value from them; non-trivial = a value with at least one vertex / "
                 "a coder sequence whose second difference wraps. (ii) round trips of seed-generated rich values recorded "
                 "from the real code and validated by Trace_Wire.tla, each also decoded through TLC-generated transports "
-                "(reader without ReadByte, pieces of 1..4097 bytes; Wire!ChunkingInvariant); every event is non-trivial")
+                "(reader without ReadByte, pieces of 1..4097 bytes; Wire!ChunkingInvariant) and into receivers that already hold "
+                "another decoded value of a TLC-generated class (Wire!ReceiverLaw); every event is non-trivial")
     ctx.assumptions += [
         "model vertices are embedded on the real (si,ti) scale by a shift of 30-K bits: model level = real level, model "
         "(pi,qi) = real (pi,qi), so the model's bytes are the real bytes; the 32-bit word of the derivative coder is bound "
@@ -74,6 +75,7 @@ def run(ctx):
     # (K, |VA|, LMax, |VB|, NL)
     runs = [(3, 8, 3, 4, 2), (6, 6, 3, 3, 2)] if q else [(3, 9, 4, 4, 3), (4, 8, 4, 4, 2), (5, 7, 4, 3, 2), (8, 6, 3, 3, 2)]
     transports = []
+    receivers = set()
     for (K, na, lmax, nb, nl) in runs:
         va = alphabet(rnd, K, na)
         vb = set(rnd.sample(sorted(va), nb))
@@ -84,6 +86,7 @@ def run(ctx):
         r = ctx.tlc("Gen_Wire", vlib.cfg(constants=consts, invariants=TH), workers=8, timeout=1500, heap="6g")
         ctx.replay(r.tagged.get("CASE", []), timeout=1800)
         transports += r.tagged.get("TRANSPORT", [])
+        receivers |= {x["class"] for x in r.tagged.get("RECEIVER", [])}
         ctx.log("wire-level cases replayed (K=%d)" % K)
     # ---- (ii) round trips of rich values, trace direction ----------------------
     per = 50 if q else 600
@@ -94,10 +97,17 @@ def run(ctx):
     if not transports:
         raise vlib.Infra("TLC generated no transports")
     whole = {"mode": "plain", "pat": [4096]}
+    # ... and a second time into a receiver that already holds a decoded value of a TLC-generated class
+    # (one seed-chosen class per value; every class for the special values: empty, full, single cell)
+    receivers = sorted(receivers)
+    if not receivers:
+        raise vlib.Infra("TLC generated no receiver classes")
     for k in KINDS:
         for i in range(per if k != "long-stream" else max(12, per // 10)):
             cases.append({"op": "roundtrip", "kind": k, "seed": ctx.seed, "i": i, "tr": len(cases) + 1,
-                          "tp": [whole] + rnd.sample(transports, 2)})
+                          "tp": [whole] + rnd.sample(transports, 2),
+                          "rc": receivers if k == "special-polygon" or (k in ("loop", "cap", "rect") and i % 5 < 2)
+                          else [rnd.choice(receivers)]})
     trace = os.path.join(ctx.scratch, "c09-trace.ndjson")
     os.environ["VERIF_C09_TRACE"] = trace
     try:
